@@ -211,6 +211,29 @@ def doMIQ (dir kind spec : String) : String :=
       if kind == "fld" then s!"{n}:{v}:{v * 3 + 1}" else s!"{n}:{v}")
   | none => "bad-op"
 
+
+def parseIElem (s : String) : Option IElem :=
+  match s.splitOn ":" with
+  | [a, b, c] => match a.toNat?, b.toInt?, c.toNat? with
+    | some sid, some ts, some id => some { sid := sid, ts := ts, id := id }
+    | _, _, _ => none
+  | _ => none
+
+def doSIdxQ (mx iter spec : String) : String :=
+  match mx.toNat?, (iter.splitOn ",").mapM parseIElem, (spec.splitOn "|").mapM (fun p => (p.splitOn ",").mapM parseIElem) with
+  | some m, some it, some parts =>
+    joinOr "-" "/" ((idxQuery m parts it).map fun pg => ",".intercalate (pg.map toString))
+  | _, _, _ => "bad-op"
+
+def doDQ (kind order nodes rows limit offset seed : String) : String :=
+  match nodes.toNat?, rows.toNat?, limit.toNat?, offset.toNat?, seed.toNat? with
+  | some n, some r, some l, some o, some sd =>
+    let dflt := if kind == "trace" then 20 else 100
+    let own := (List.range n).map fun k => ((List.range r).filter fun i => ((i * 2654435761 + sd) % 7919) % n == k).map Int.ofNat
+    let got := distributedWindow dflt l o (order == "desc") own
+    s!"pushed={pushedLimit dflt l o}+0 got=" ++ joinOr "-" "," (got.map toString)
+  | _, _, _, _, _ => "bad-op"
+
 def handle (line : String) : String :=
   match words line with
   | ["sort", dir, spec] => doSort dir spec
@@ -223,6 +246,8 @@ def handle (line : String) : String :=
   | ["mqr", ord, dir, lo, hi, sids, spec] => doMQR ord dir lo hi sids spec
   | ["tsidx", dir, mbs, mt, spec] => doTSidx dir mbs mt spec
   | ["djp", _, dir, spec] => doDJP dir spec
+  | ["sidxq", mx, iter, spec] => doSIdxQ mx iter spec
+  | ["dq", kind, order, nodes, rows, limit, offset, seed] => doDQ kind order nodes rows limit offset seed
   | ["squery", dir, lo, hi, _, sids, spec] => doSQuery dir lo hi sids spec
   | ["miq", dir, kind, spec] => doMIQ dir kind spec
   | ["slimit", _, off, lim, spec] => doSLimit off lim spec
